@@ -11,18 +11,22 @@ def delta (cfg : HCfg) (r : ReqIn) (s : St) (a : Action) : List Eff :=
 /-- the log only grows: what happened stays, in order (program order of one callback) -/
 theorem act_extends (cfg : HCfg) (r : ReqIn) (s : St) (a : Action) :
     (stepSt (act cfg r s a)).effs = s.effs ++ delta cfg r s a := by
-  sorry
+  obtain ⟨d, hd⟩ := (act_next cfg r s a).extends
+  simp [delta, hd]
 
 /-- **program order**: the effects of a script are the concatenation of its steps' effects, in
 order, up to the first panic -/
 theorem script_extends (cfg : HCfg) (r : ReqIn) (s : St) (script : List Action) :
     ∃ d, (stepSt (runScript cfg r s script)).effs = s.effs ++ d := by
-  sorry
+  refine runScript_next cfg r (fun s' => ∃ d, s'.effs = s.effs ++ d) ?_ script s ⟨[], by simp⟩
+  rintro s1 s2 hn ⟨d, hd⟩
+  obtain ⟨d', hd'⟩ := hn.extends
+  exact ⟨d ++ d', by rw [hd', hd, List.append_assoc]⟩
 
 theorem script_cons (cfg : HCfg) (r : ReqIn) (s s' : St) (a : Action) (rest : List Action)
     (h : act cfg r s a = .cont s') :
     runScript cfg r s (a :: rest) = runScript cfg r s' rest := by
-  sorry
+  simp [runScript, h]
 
 /-- the shape of one event: `[apply?] ++ [publish] ++ listeners` -/
 def eventShape (ap : Apply) (kind : String) (subj payload : Str) (ls : List Eff) : List Eff :=
@@ -34,41 +38,61 @@ theorem change_ok (cfg : HCfg) (r : ReqIn) (s : St) (props : List (Str × JV))
     (h4 : ∀ kv ∈ props, kv.2.ok = true) :
     ∃ payload, delta cfg r s (.change props) =
       eventShape cfg.applyChange "change" (evSubj r (b!"change")) payload (listenersOf cfg (b!"change")) := by
-  sorry
+  have h5 : props.all (·.2.ok) = true := by simpa using h4
+  rcases h3 with h | h <;>
+    simp [delta, act, h, h1, h2, h5, stepSt, emit, eventShape, svcEvent, addAll]
 
 /-- … a failing apply handler, or one that reports that nothing changes, publishes nothing and
 runs no listener … -/
 theorem change_apply_failed (cfg : HCfg) (r : ReqIn) (s : St) (props : List (Str × JV))
     (h1 : cfg.typ ≠ 2) (h2 : props ≠ []) (h3 : cfg.applyChange = .err ∨ cfg.applyChange = .okEmpty) :
     delta cfg r s (.change props) = [.apply "change"] := by
-  sorry
+  rcases h3 with h | h <;> simp [delta, act, h, h1, h2, stepSt, emit]
 
 /-- … and an invalid call (wrong resource type, empty change) has no effect at all -/
 theorem change_invalid (cfg : HCfg) (r : ReqIn) (s : St) (props : List (Str × JV))
     (h : cfg.typ = 2 ∨ props = []) : delta cfg r s (.change props) = [] := by
-  sorry
+  rcases h with h | h
+  · simp [delta, act, h]
+  · simp only [delta, act, h]; split <;> simp
 
 theorem add_ok (cfg : HCfg) (r : ReqIn) (s : St) (v : JV) (idx : Int)
     (h1 : cfg.typ ≠ 1) (h2 : 0 ≤ idx) (h3 : cfg.applyAdd ≠ .err) (h4 : v.ok = true) :
     ∃ payload, delta cfg r s (.add v idx) =
       eventShape cfg.applyAdd "add" (evSubj r (b!"add")) payload (listenersOf cfg (b!"add")) := by
-  sorry
+  have h2' : ¬ idx < 0 := by omega
+  by_cases h : cfg.applyAdd = .absent <;>
+    simp [delta, act, h, h1, h2', h3, h4, stepSt, emit, eventShape, svcEvent, addAll]
 
 theorem add_failed_or_invalid (cfg : HCfg) (r : ReqIn) (s : St) (v : JV) (idx : Int) :
     (cfg.typ = 1 ∨ idx < 0 → delta cfg r s (.add v idx) = []) ∧
     (cfg.typ ≠ 1 → 0 ≤ idx → cfg.applyAdd = .err → delta cfg r s (.add v idx) = [.apply "add"]) := by
-  sorry
+  refine ⟨?_, ?_⟩
+  · rintro (h | h)
+    · simp [delta, act, h]
+    · simp only [delta, act, h]; split <;> simp
+  · intro h1 h2 h3
+    have h2' : ¬ idx < 0 := by omega
+    simp [delta, act, h1, h2', h3, emit]
 
 theorem remove_ok (cfg : HCfg) (r : ReqIn) (s : St) (idx : Int)
     (h1 : cfg.typ ≠ 1) (h2 : 0 ≤ idx) (h3 : cfg.applyRemove ≠ .err) :
     ∃ payload, delta cfg r s (.remove idx) =
       eventShape cfg.applyRemove "remove" (evSubj r (b!"remove")) payload (listenersOf cfg (b!"remove")) := by
-  sorry
+  have h2' : ¬ idx < 0 := by omega
+  by_cases h : cfg.applyRemove = .absent <;>
+    simp [delta, act, h, h1, h2', h3, stepSt, emit, eventShape, svcEvent, addAll]
 
 theorem remove_failed_or_invalid (cfg : HCfg) (r : ReqIn) (s : St) (idx : Int) :
     (cfg.typ = 1 ∨ idx < 0 → delta cfg r s (.remove idx) = []) ∧
     (cfg.typ ≠ 1 → 0 ≤ idx → cfg.applyRemove = .err → delta cfg r s (.remove idx) = [.apply "remove"]) := by
-  sorry
+  refine ⟨?_, ?_⟩
+  · rintro (h | h)
+    · simp [delta, act, h]
+    · simp only [delta, act, h]; split <;> simp
+  · intro h1 h2 h3
+    have h2' : ¬ idx < 0 := by omega
+    simp [delta, act, h1, h2', h3, emit]
 
 theorem create_delete_ok (cfg : HCfg) (r : ReqIn) (s : St) (v : JV) :
     (cfg.applyCreate ≠ .err → delta cfg r s (.create v) =
@@ -77,20 +101,35 @@ theorem create_delete_ok (cfg : HCfg) (r : ReqIn) (s : St) (v : JV) :
       eventShape cfg.applyDelete "delete" (evSubj r (b!"delete")) [] (listenersOf cfg (b!"delete"))) ∧
     (cfg.applyCreate = .err → delta cfg r s (.create v) = [.apply "create"]) ∧
     (cfg.applyDelete = .err → delta cfg r s .delete = [.apply "delete"]) := by
-  sorry
+  refine ⟨?_, ?_, ?_, ?_⟩
+  · intro h3
+    by_cases h : cfg.applyCreate = .absent <;>
+      simp [delta, act, h, h3, emit, eventShape, svcEvent, addAll]
+  · intro h3
+    by_cases h : cfg.applyDelete = .absent <;>
+      simp [delta, act, h, h3, emit, eventShape, svcEvent, addAll]
+  · intro h3; simp [delta, act, h3, emit]
+  · intro h3; simp [delta, act, h3, emit]
 
 /-- custom events: a reserved or malformed name has no effect; otherwise publish then listeners -/
 theorem custom_event (cfg : HCfg) (r : ReqIn) (s : St) (name : Str) (payload : Option JV) :
     (name ∈ reserved ∨ isValidPartB name = false → delta cfg r s (.custom name payload) = []) ∧
     (name ∉ reserved → isValidPartB name = true → (∀ v, payload = some v → v.ok = true) →
       ∃ pl, delta cfg r s (.custom name payload) = [.pub (evSubj r name) pl] ++ listenersOf cfg name) := by
-  sorry
+  refine ⟨?_, ?_⟩
+  · rintro (h | h)
+    · simp [delta, act, h]
+    · simp only [delta, act, h]; split <;> simp
+  · intro h1 h2 h3
+    cases payload with
+    | none => exact ⟨[], by simp [delta, act, h1, h2, svcEvent, emit, addAll]⟩
+    | some v => exact ⟨v.text, by simp [delta, act, h1, h2, svcEvent, h3 v rfl, emit, addAll]⟩
 
 /-- listeners receive the event name of the event that was published just before them, in
 registration order -/
 theorem listeners_in_order (cfg : HCfg) (name : Str) :
     listenersOf cfg name = (List.range cfg.listeners).map (fun i => Eff.listener i name) := by
-  sorry
+  rfl
 
 /-! ## non-vacuity -/
 example : eventShape .ok "add" [1] [2] [.listener 0 [3]] = [.apply "add", .pub [1] [2], .listener 0 [3]] := by decide
